@@ -601,3 +601,92 @@ func ruleTSEEALL(p *Program, r *Reporter) {
 		r.Anchor(id, "referenceTracker.getModel / getRow")
 	}
 }
+
+// ---------------------------------------------------------------------------
+// GEN-SKIP — the generator leaves an existing file alone only when its content
+// is what would be written: every successful return of Generate that does not
+// pass through the file write is either the dry-run arm (a condition on a
+// field of the generator) or dominated by the true edge of a whole-content
+// comparison (bytes.Equal / bytes.Compare == 0 / string equality) involving
+// the generated source. A cheaper test (size, mtime, hash prefix) keeps stale
+// code on disk.
+
+func ruleGENSKIP(p *Program, r *Reporter) {
+	const id = "GEN-SKIP"
+	fn := p.Fn("modelgen", "generator", "Generate")
+	if fn == nil {
+		r.Anchor(id, "modelgen.(*generator).Generate")
+		return
+	}
+	n := 0
+	for g := range p.PrivateRegion(fn) {
+		if g.Parent() != nil {
+			continue
+		}
+		var writes []*ssa.BasicBlock
+		for _, b := range g.Blocks {
+			for _, ins := range b.Instrs {
+				if c, ok := ins.(*ssa.Call); ok {
+					if sc := c.Call.StaticCallee(); sc != nil && sc.Name() == "WriteFile" {
+						writes = append(writes, b)
+					}
+				}
+			}
+		}
+		if len(writes) == 0 {
+			continue
+		}
+		for _, b := range g.Blocks {
+			ret, ok := b.Instrs[len(b.Instrs)-1].(*ssa.Return)
+			if !ok || len(ret.Results) == 0 {
+				continue
+			}
+			c, isC := ret.Results[len(ret.Results)-1].(*ssa.Const)
+			if !isC || !c.IsNil() {
+				continue // error returns, or the result of the write itself
+			}
+			afterWrite := false
+			for _, w := range writes {
+				if w.Dominates(b) {
+					afterWrite = true
+				}
+			}
+			if afterWrite {
+				continue
+			}
+			n++
+			why := ""
+			for _, f := range conjunctFacts(b) {
+				cond, truth := normFact(f)
+				// dry run: a boolean field of the receiver
+				if ld, ok := cond.(*ssa.UnOp); ok {
+					if fa, ok := ld.X.(*ssa.FieldAddr); ok && len(g.Params) > 0 && fa.X == ssa.Value(g.Params[0]) && truth {
+						why = "dry-run arm (condition on the generator's field " + fieldOfAddr(fa).Name() + ")"
+					}
+				}
+				if call, ok := cond.(*ssa.Call); ok && truth {
+					if sc := call.Call.StaticCallee(); sc != nil && sc.Pkg != nil && sc.Pkg.Pkg.Path() == "bytes" && sc.Name() == "Equal" {
+						why = "the file's content equals the generated source (bytes.Equal)"
+					}
+				}
+				if bo, ok := cond.(*ssa.BinOp); ok {
+					if call, ok := bo.X.(*ssa.Call); ok && bo.Op == token.EQL && truth {
+						if sc := call.Call.StaticCallee(); sc != nil && sc.Pkg != nil && sc.Pkg.Pkg.Path() == "bytes" && sc.Name() == "Compare" {
+							why = "bytes.Compare == 0"
+						}
+					}
+					if bo.Op == token.EQL && truth {
+						if bt, ok := bo.X.Type().Underlying().(*types.Basic); ok && bt.Kind() == types.String {
+							why = "string equality of the contents"
+						}
+					}
+				}
+			}
+			r.Ob(id, funcName(g), "write skipped only for identical content", ret.Pos(), why != "", true,
+				ifs(why != "", "returns without writing because: "+why, "Generate returns successfully without writing the file although nothing established that the file already holds the generated source (no whole-content comparison dominates this return): code generated from an older schema stays on disk"))
+		}
+	}
+	if n < 1 {
+		r.Anchor(id, "Generate: successful return that bypasses the file write")
+	}
+}
